@@ -34,7 +34,7 @@ func (m msg) String() string { return fmt.Sprintf("c%d:%s(%d)", m.Conn, m.Kind, 
 
 var startKinds = []string{"start", "start", "start", "start", "start-low-order-point", "start-low-order-point", "start-keylen-0", "start-keylen-1", "start-keylen-31", "start-keylen-33", "start-no-key", "start-method-unknown"}
 var finishKinds = []string{"finish-genuine", "finish-genuine", "finish-genuine", "finish-wrong-key", "finish-stale", "finish-reordered-material", "finish-replayed", "finish-unknown-name",
-	"finish-accessory-name", "finish-retired-key", "finish-retired-key", "finish-genuine-late", "finish-genuine-late", "finish-seal-zero-key", "finish-seal-random-key", "finish-seal-wrong-nonce", "finish-short", "finish-absent", "finish-garbage-tlv", "finish-empty-signature"}
+	"finish-accessory-name", "finish-brings-own-key", "finish-brings-own-key-unknown-name", "finish-retired-key", "finish-retired-key", "finish-genuine-late", "finish-genuine-late", "finish-seal-zero-key", "finish-seal-random-key", "finish-seal-wrong-nonce", "finish-short", "finish-absent", "finish-garbage-tlv", "finish-empty-signature"}
 var otherKinds = []string{"unknown-step", "empty-body", "garbage", "replay-whole-exchange", "replay-whole-exchange", "rekey-stored", "rekey-stored"}
 
 var lowOrder = []string{
@@ -196,6 +196,19 @@ func (w *world) send(m msg) (label string, err error) {
 			}
 		case "finish-wrong-key":
 			plain = sign(w.attacker, ctl.ID, st.EphPublic, st.AccEph)
+		case "finish-brings-own-key", "finish-brings-own-key-unknown-name":
+			// like pair-setup's key exchange, the sealed block also carries a long-term public key (the signer's own):
+			// the key to verify against is the stored one, never one that arrives with the message
+			name := ctl.ID
+			if m.Kind == "finish-brings-own-key-unknown-name" {
+				name = "nobody-" + fmt.Sprint(m.Arg)
+			}
+			info := append(append(append([]byte{}, st.EphPublic...), []byte(name)...), st.AccEph...)
+			items := []refctl.Item{{Tag: refctl.TagIdentifier, Value: []byte(name)}, {Tag: refctl.TagPublicKey, Value: w.attacker.LTPK}, {Tag: refctl.TagSignature, Value: ed25519.Sign(w.attacker.LTSK, info)}}
+			if m.Arg%2 == 1 {
+				items[1], items[2] = items[2], items[1]
+			}
+			plain = refctl.EncodeTLV8(items)
 		case "finish-stale":
 			old := zeroState()
 			if cs.prev != nil {
